@@ -474,7 +474,7 @@ func TestC14(t *testing.T) {
 	defer h.Finish()
 	h.Probes()
 
-	nplans := h.N(36, 8000) / h.NShards
+	nplans := h.N(60, 8000) / h.NShards
 	if nplans < 4 {
 		nplans = 4
 	}
